@@ -91,6 +91,25 @@ def check(rep, tier):
                  sample=dict(shape=cfg["shape"], arr=cfg["arr"], dt=cfg["dt"], kinetics=cfg["over"].get("kinetics"), nucleated=nn, draws=len(L.cand_counts)) if ri < 4 else None)
         rep.count("nucleated-vials", nn); rep.count("draw-calls", len(L.cand_counts))
         compare(rep, cfg, S, L)
+        if ri % 3 == 0:
+            # the same object run again with another vial seed: k_v is fixed by the vial seed of THAT run
+            cfg2 = dict(cfg, seed_v=cfg["seed_v"] + 101, seed=cfg["seed"] + 5)
+            try:
+                with impl.quiet():
+                    S.seed_v = cfg2["seed_v"]
+                    S.seed = cfg2["seed"]
+                    hs2 = np.broadcast_to(np.asarray(S.H_shelf, dtype=float), (S.N_vials_total,)).copy()
+                    L2 = oracle_sim.Lockstep(cfg2, S, hs2, rng)
+                    S._rng = fr.ScriptedRng(S._rng, L2.script)
+                    S.run()
+                L2.finish()
+                nv = len(rep.violations)
+                compare(rep, cfg2, S, L2)
+                for v in rep.violations[nv:]:
+                    v["key"] = "rerun-new-seed_v " + v["key"]; v["what"] = "second run() on the same object after assigning another seed_v: " + v["what"]
+                rep.count("reruns")
+            except Exception as e:
+                rep.violation("rerun-crash %s" % type(e).__name__, "re-run raises %r for %s" % (e, cfg2), dict(config=cfg2, error=repr(e)))
         for (xi, Ts, Pv) in L.samples[: (6 if tier == "quick" else 10)]:
             certs.append((dict(S.const), S.dt, xi, Ts, Pv))
     certificates(rep, certs[: (150 if tier == "quick" else 1500)], None, "c03_certs")
